@@ -347,6 +347,47 @@ def r5(ctx: Context, sites) -> None:
     ctx.floor("R5", "sqlite_master statements", n, 3)
 
 
+def r6(ctx: Context) -> None:
+    ctx.rule("R6", "identity of app objects: (a) an app object looked up for a requested id is returned only under `<obj>.app_id == <requested id>`; (b) the per-process instance registry is consulted with an id resolved from the SAME configuration sources the app itself uses (every configuration parameter of __new__ reaches the ConfigPynenc that resolves the id)")
+    from ..cfg import build_cfg
+    from ..flow import conditions_at, parent_map
+
+    repo = ctx.repo
+    m = repo.modules.get("pynenc.util.import_app")
+    if m is None:
+        raise AnalysisError("anchor-vanished: pynenc.util.import_app")
+    n = 0
+    for f in m.functions.values():
+        # functions that look an app up FOR a request: a parameter annotated AppInfo, or a str parameter compared with .app_id
+        anns = {a.arg: (ast.unparse(a.annotation) if a.annotation is not None else "") for a in f.node.args.args}
+        infos = [p for p, t in anns.items() if "AppInfo" in t]
+        ids = [p for p, t in anns.items() if t.strip("'\"") == "str" and any(isinstance(c, ast.Compare) and any(isinstance(s_, ast.Name) and s_.id == p for s_ in [c.left] + c.comparators) and "app_id" in ast.unparse(c) for c in ast.walk(f.node))]
+        if not ids and not infos:
+            # a str parameter that is never compared: only relevant when the function returns a module attribute for an AppInfo
+            continue
+        wanted = {f"{p}" for p in ids} | {f"{p}.app_id" for p in infos}
+        got = {t.id for x in walk_no_nested(f.node) if isinstance(x, ast.Assign) and isinstance(x.value, ast.Call) and call_name(x.value) == "getattr" for t in x.targets if isinstance(t, ast.Name)}
+        g = build_cfg(f.node)
+        pm = parent_map(f.node)
+        for r in [x for x in walk_no_nested(f.node) if isinstance(x, ast.Return) and isinstance(x.value, ast.Name) and x.value.id in got]:
+            n += 1
+            conds = conditions_at(g, f.node, r, pm)
+            ok = any(isinstance(c, ast.Compare) and isinstance(c.ops[0], ast.Eq) and {ast.unparse(c.left), ast.unparse(c.comparators[0])} & wanted and any(isinstance(s_, ast.Attribute) and s_.attr == "app_id" and isinstance(s_.value, ast.Name) and s_.value.id == r.value.id for s_ in (c.left, c.comparators[0])) for c in conds)
+            ctx.add("R6", f"{f.qualname}::returned-app-has-the-requested-id", ok, f.loc(r), "" if ok else f"`{r.value.id}` (taken from a module attribute) is returned without `{r.value.id}.app_id == {sorted(wanted)[0]}`: the monitor / a worker asking for one application gets ANOTHER application's object - reads, purges and routing then hit the wrong tenant")
+    ctx.floor("R6", "app lookups by id", n, 2)
+    app = repo.cls("Pynenc")
+    new = app.methods.get("__new__")
+    if new is None:
+        raise AnalysisError("anchor-vanished: Pynenc.__new__")
+    conf_params = [p for p in new.params[1:]]
+    calls = [c for c in calls_in(new.node) if call_name(c) == "ConfigPynenc"]
+    for c in calls:
+        passed = {k.arg for k in c.keywords if isinstance(k.value, ast.Name) and k.value.id == k.arg} | {a.id for a in c.args if isinstance(a, ast.Name)}
+        ok = set(conf_params) <= passed
+        ctx.add("R6", f"{new.qualname}::instance-lookup-resolves-the-id-from-all-configuration-sources", ok, new.loc(c), "" if ok else f"the id used to look an existing instance up is resolved from {sorted(passed)} only, the app itself also reads {sorted(set(conf_params) - passed)}: an app configured through the omitted source is given the id of the default configuration and receives ANOTHER app's object (shared broker, orchestrator, state backend; its purge wipes the other app)")
+    ctx.floor("R6", "instance registry lookups", len(calls), 1)
+
+
 def run(ctx: Context) -> None:
     sites = sqlmini.sites(ctx.repo)
     ctx.analysed["sql_sites"] = len(sites)
@@ -355,6 +396,7 @@ def run(ctx: Context) -> None:
     r3(ctx, sites)
     r4(ctx)
     r5(ctx, sites)
+    r6(ctx)
     ctx.exhaustive = True
     ctx.not_decided += [
         "injectivity of the prefix for all strings beyond 'hash of the raw id is part of it' (hash collisions)",
